@@ -140,7 +140,7 @@ def supst(t, p, bounds = False):
     If bounds is True, return None values if pressure and / or temperature
     are outside the operating bounds of the routine."""
     if bounds:
-        if (0.01 <= t <= 800.) and (0 <= p):
+        if (0.01 <= t <= 800.) and (0 < p):
             if t <= Tc1_C: ok = (p <= sat(t))
             elif t <= 590.: ok = (p <= b23p(t))
             else: ok = (p <= 1.e8)
